@@ -212,6 +212,7 @@ class MainLoop(Contract):
         st.assume(And(cnt(cx, 'rows_csr') == cnt(cx, 'rows_time'), cnt(cx, 'rows_trk') == cnt(cx, 'rows_time'), cnt(cx, 'rows_wake') == cnt(cx, 'rows_time'),
                       cnt(cx, 'rf_pending') == 0, cnt(cx, 'rows_rf') == cnt(cx, 'rf_applied'), cnt(cx, 'final_appends') == 0, cnt(cx, 'phase_after_loop') == 0))
         # the tie between the two views of the dynamic RF map (drfm and rfm are the same object when drfm is set)
+        st.assume(ex.args0['steps'].t > 0)
         d = ex.args0.get('drfm')
         if isinstance(d, ObjRef):
             st.assume(z3.Bool('drfm_set') == ex.nonnull(d) if d.null is not None else z3.Bool('drfm_set'))
@@ -221,6 +222,8 @@ class MainLoop(Contract):
 
     def assigns(self, cx):
         return [('s', 'ghost.*'), ('s', 'arg:*')]
+
+    domain_after = {}
 
     # ---- what one loop iteration must do to the physics state, whatever the output cadence (C05 order, C12)
     def reference(self, cx, cxb):
@@ -242,7 +245,6 @@ class MainLoop(Contract):
         return [('rows.csr', cnt(cx, 'rows_csr') == cnt(cx, 'rows_time')),
                 ('rows.tracks', cnt(cx, 'rows_trk') == cnt(cx, 'rows_time')),
                 ('rows.wake', Implies(self.wkm_set(cx), cnt(cx, 'rows_wake') == cnt(cx, 'rows_time'))),
-                ('rows.ps', cnt(cx, 'rows_ps') <= cnt(cx, 'rows_time') + cx.old_cnt('rows_ps')),
                 ('rf.records', cnt(cx, 'rows_rf') + cnt(cx, 'rf_pending') == cnt(cx, 'rf_applied')),
                 ('phase', And(cnt(cx, 'phase_after_loop') == 0, cnt(cx, 'final_appends') == 0)),
                 ('hdf', self.hdf_guard(cx))]
@@ -294,6 +296,8 @@ class MainLoop(Contract):
             'WakeKickMap::update': E('wake.update', ev_wake_update),
             'PhaseSpace::integrateAndNormalize': E('ps.integrateAndNormalize', ev_integrate_normalize),
             'PhaseSpace::integrate': E('ps.integrate', ev_integrate),
+            'PhaseSpace::normalize': E('ps.normalize', lambda cx, r, a: setloc(cx, 'D1', U('normalize', 2)(loc(cx, 'D1'), loc(cx, 'FIL')))),
+            'PhaseSpace::swap': E('ps.swap', lambda cx, r, a: setloc(cx, 'D1', U('swap', 1)(loc(cx, 'D1')))),
             'PhaseSpace::variance': E('ps.variance', ev_variance),
             'PhaseSpace::updateYProjection': E('ps.yproj', ev_yproj),
             'PhaseSpace::updateXProjection': E('ps.xproj', ev_xproj),
@@ -308,6 +312,8 @@ class MainLoop(Contract):
             'SourceMap::apply': E('map.apply', ev_apply),
             'SourceMap::applyToAll': E('map.track', ev_apply_to_all),
             'WakeKickMap::apply': E('map.apply', ev_apply),
+            'apply': E('map.apply', ev_apply),
+            'applyToAll': E('map.track', ev_apply_to_all),
             'printText': E('print', ev_print),
             'status_string': E('status', None, Opaque('status')),
         }
